@@ -177,6 +177,11 @@ def apply(m, e):
     return m
 
 
+def twin_ok(case):
+    # also run under the second label decoding (common.twin_labels); Matrix kinds index by int
+    return C.no_matrix(case)
+
+
 def run_impl(case):
     out = {"obs": [], "error": None, "checks": []}
     try:
